@@ -645,6 +645,20 @@ func (x *Exec) evalCall(n *SCall, env *Env) Val {
 		x.fail("unknown global %s", s.V)
 	case "real":
 		return Val{T: fmt.Sprintf("(to_real %s)", arg(0).T), Sort: "Real"}
+	case "boundMethod": // boundMethod(f, "pkg.(*T).M", recv): f is the method value recv.M
+		f, recv := arg(0), arg(2)
+		nm, ok := n.Args[1].(*SStr)
+		if !ok {
+			x.fail("boundMethod: second argument must be a string literal")
+		}
+		// the synthetic wrapper of a method value is named <pkg>.<Method>$bound
+		fid := Val{T: "fn!" + sanitize(nm.V+"$bound"), Sort: "Int"}
+		e.decl(fmt.Sprintf("(declare-const %s Int)", fid.T))
+		e.decl(fmt.Sprintf("(assert (> %s 0))", fid.T))
+		e.decl("(declare-fun closureFn (Int) Int)")
+		bf := "closureBind0!" + sanitize(recv.Sort)
+		e.decl(fmt.Sprintf("(declare-fun %s (Int) %s)", bf, recv.Sort))
+		return Val{T: fmt.Sprintf("(and (= (closureFn %s) %s) (= (%s %s) %s))", f.T, fid.T, bf, f.T, recv.T), Sort: "Bool"}
 	case "smt": // smt("raw term", "Sort")
 		return Val{T: n.Args[0].(*SStr).V, Sort: n.Args[1].(*SStr).V}
 	}
